@@ -20,6 +20,7 @@ type encCase struct {
 	list    []string
 	length  int
 	armored bool
+	via     string // "" = rotate with the case index
 }
 
 var boundary = []int{0, 1, 2, 65535, 65536, 65537, 131071, 131072, 131073, 196608, 196609}
@@ -82,14 +83,24 @@ func main() {
 			lens = []int{boundary[li%3], boundary[3+li%8], 3 + rng.Intn(300)}
 		}
 		for _, n := range lens {
-			cases = append(cases, encCase{l, n, false})
+			cases = append(cases, encCase{list: l, length: n})
 			if r.Thorough() || (li+n)%2 == 0 {
-				cases = append(cases, encCase{l, n, true})
+				cases = append(cases, encCase{list: l, length: n, armored: true})
+			}
+		}
+	}
+	// every hand-over mode at every chunk-boundary length
+	for _, l := range [][]string{{"X1"}, {"E1"}, {"X2", "R1"}} {
+		for _, n := range []int{0, 1, 65535, 65536, 65537, 131072, 196608} {
+			for _, via := range ax.Vias {
+				for _, arm := range []bool{false, true} {
+					cases = append(cases, encCase{list: l, length: n, armored: arm, via: via})
+				}
 			}
 		}
 	}
 	// take the chunk counter past one byte: a 300-chunk file, binary and armored
-	cases = append(cases, encCase{[]string{"X1"}, 300 * 65536, false}, encCase{[]string{"X2", "E1"}, 299*65536 + 1, true})
+	cases = append(cases, encCase{list: []string{"X1"}, length: 300 * 65536}, encCase{list: []string{"X2", "E1"}, length: 299*65536 + 1, armored: true})
 
 	longest := 0
 	for _, l := range lists {
@@ -125,9 +136,17 @@ func fillers(file []string) []age.Identity {
 func runCase(r *mon.Run, idx int, c encCase) {
 	parties := keys.Ps(c.list...)
 	pt := mon.DetBytes(fmt.Sprintf("c01-%d-%d", r.Seed, idx), c.length)
-	file, err := ax.Encrypt(pt, c.armored, keys.Recipients(parties)...)
+	// how the plaintext is handed to the writer rotates with the case: one
+	// Write, io.Copy from a plain source (uses the writer's ReadFrom if it has
+	// one), io.Copy from a bytes.Reader, CopyBuffer with small and 64 KiB buffers
+	via := c.via
+	if via == "" {
+		via = ax.Vias[idx%len(ax.Vias)]
+	}
+	file, err := ax.EncryptVia(pt, c.armored, via, keys.Recipients(parties)...)
+	r.Tab("handed_over_via", via)
 	r.Eval(1)
-	caseName := fmt.Sprintf("list=%s len=%d armor=%v", keys.Names(parties), c.length, c.armored)
+	caseName := fmt.Sprintf("list=%s len=%d armor=%v via=%s", keys.Names(parties), c.length, c.armored, via)
 	if err != nil {
 		r.Violate("encrypt-refused:"+keys.Names(parties), fmt.Sprintf("%s: a list the library should accept was refused: %v", caseName, err),
 			map[string]any{"list": c.list, "len": c.length, "armor": c.armored})
